@@ -39,6 +39,7 @@ type Contract struct {
 	Requires    []*Clause
 	Ensures     []*Clause
 	Exits       []*Clause // must hold at every exit, normal or panicking
+	Sets        []*SetClause
 	Panics      string    // "false" | "any" | "when"
 	PanicsWhen  *Clause
 	Modifies    []string
@@ -55,6 +56,15 @@ type Contract struct {
 	Params      []pparam // for method/functype/lemma contracts
 	Results     []pparam
 	File        string
+}
+
+// sets G_name[idx] = value when cond : ghost assignment at the function's exit
+type SetClause struct {
+	Ghost string
+	Idx   ast.Expr
+	Val   ast.Expr
+	When  ast.Expr
+	Text  string
 }
 
 type pparam struct {
@@ -242,7 +252,7 @@ func parseSpecExpr(text string) (ast.Expr, error) {
 }
 
 var clauseKw = map[string]bool{"requires": true, "ensures": true, "panics": true, "modifies": true, "inline": true, "trusted": true, "tags": true,
-	"safety": true, "invariant": true, "exit": true, "shapes": true, "thread": true, "params": true, "results": true}
+	"safety": true, "invariant": true, "exit": true, "shapes": true, "thread": true, "params": true, "results": true, "sets": true}
 
 func (db *ContractDB) loadFile(path, pkg string) error {
 	b, err := os.ReadFile(path)
@@ -273,6 +283,9 @@ func (db *ContractDB) loadFile(path, pkg string) error {
 	var joined []string
 	for _, l := range lines {
 		w := strings.Fields(l)[0]
+		if i := strings.Index(w, "["); i > 0 {
+			w = w[:i]
+		}
 		if clauseKw[w] || topKw[w] {
 			joined = append(joined, l)
 		} else if len(joined) > 0 {
@@ -285,6 +298,9 @@ func (db *ContractDB) loadFile(path, pkg string) error {
 	var curLoop *LoopSpec
 	for _, l := range joined {
 		w := strings.Fields(l)[0]
+		if i := strings.Index(w, "["); i > 0 {
+			w = w[:i]
+		}
 		rest := strings.TrimSpace(strings.TrimPrefix(l, w))
 		switch w {
 		case "func", "method", "functype", "extern", "lemma":
@@ -387,6 +403,12 @@ func (db *ContractDB) loadFile(path, pkg string) error {
 					}
 					curLoop.Invs = append(curLoop.Invs, c)
 				}
+			case "sets":
+				sc, err := parseSets(rest)
+				if err != nil {
+					return fmt.Errorf("%s: %s: %v", path, cur.Name, err)
+				}
+				cur.Sets = append(cur.Sets, sc)
 			case "panics":
 				switch {
 				case rest == "false" || rest == "any":
@@ -1071,6 +1093,25 @@ func (c *SpecCtx) tryField(v Val, t types.Type, name string) (Val, types.Type, b
 }
 
 func (c *SpecCtx) evalIndex(x *ast.IndexExpr) (Val, types.Type) {
+	if id, ok := x.X.(*ast.Ident); ok && strings.HasPrefix(id.Name, "G_") {
+		if _, isVar := c.vars[id.Name]; !isVar {
+			h, srt := c.ghostHeap(id.Name[2:])
+			if !srt.IsArr() {
+				srt = ArrSort(srt)
+			}
+			iv, _ := c.eval(x.Index)
+			gt := types.Type(tInt)
+			switch srt.Elem() {
+			case SBool:
+				gt = tBool
+			case SStr:
+				gt = tString
+			case SIface:
+				gt = types.NewInterfaceType(nil, nil)
+			}
+			return Select(c.heaps(h, srt), c.e.term(iv)), gt
+		}
+	}
 	v, t := c.eval(x.X)
 	iv, _ := c.eval(x.Index)
 	switch u := under(t).(type) {
@@ -1295,6 +1336,32 @@ func (c *SpecCtx) evalCall(x *ast.CallExpr) (Val, types.Type) {
 	case "iref":
 		v, _ := c.eval(x.Args[0])
 		return IfRef(v.(*Term)), tInt
+	case "unchanged":
+		// unchanged(G_name): the ghost keeps its value on everything that existed before
+		id, ok := x.Args[0].(*ast.Ident)
+		if !ok || !strings.HasPrefix(id.Name, "G_") || c.old == nil {
+			panic(sperr("unchanged(G_name) needs a ghost and a post-state"))
+		}
+		h, srt := c.ghostHeap(id.Name[2:])
+		if !srt.IsArr() {
+			srt = ArrSort(srt)
+		}
+		y := BoundVar("y", SInt)
+		oldH := c.old.heap(h, srt)
+		if c.oldHeaps != nil {
+			oldH = c.oldHeaps(h, srt)
+		}
+		cur := c.heaps(h, srt)
+		return Forall([]*Term{y}, Implies(Allocd(c.old.alloc, y), Eq(Select(cur, y), Select(oldH, y))), []*Term{Select(cur, y)}), tBool
+	case "errstr":
+		v, _ := c.eval(x.Args[0])
+		declFun("errstr", SStr, SIface)
+		return App("errstr", SStr, c.e.term(v)), tString
+	case "strcontains":
+		a, _ := c.eval(x.Args[0])
+		b, _ := c.eval(x.Args[1])
+		declFun("|u!strings.Contains|", SBool, SStr, SStr)
+		return App("|u!strings.Contains|", SBool, c.e.term(a), c.e.term(b)), tBool
 	case "pktbytes":
 		// BER-wrapped form of packet p at the context's heap: what (*ber.Packet).Bytes returns
 		v, t := c.eval(x.Args[0])
@@ -1542,4 +1609,67 @@ func mentionsOtherBound(t, v *Term) bool {
 		}
 	}
 	return false
+}
+
+func parseSets(s string) (*SetClause, error) {
+	sc := &SetClause{Text: s}
+	if i := topLevelIndex(s, " when "); i >= 0 {
+		w, err := parseSpecExpr(s[i+6:])
+		if err != nil {
+			return nil, err
+		}
+		sc.When = w
+		s = s[:i]
+	}
+	i := topLevelIndex(s, " = ")
+	if i < 0 {
+		return nil, fmt.Errorf("bad sets clause %q", s)
+	}
+	lhs, rhs := strings.TrimSpace(s[:i]), strings.TrimSpace(s[i+3:])
+	v, err := parseSpecExpr(rhs)
+	if err != nil {
+		return nil, err
+	}
+	sc.Val = v
+	if j := strings.Index(lhs, "["); j > 0 {
+		idx, err := parseSpecExpr(lhs[j+1 : len(lhs)-1])
+		if err != nil {
+			return nil, err
+		}
+		sc.Idx = idx
+		lhs = lhs[:j]
+	}
+	if !strings.HasPrefix(lhs, "G_") {
+		return nil, fmt.Errorf("sets: %s is not a ghost", lhs)
+	}
+	sc.Ghost = lhs[2:]
+	return sc, nil
+}
+
+// applySets performs the ghost assignments of a contract in the given post context
+func (e *Exec) applySets(st *State, c *Contract, post *SpecCtx) {
+	for _, sc := range c.Sets {
+		srt, ok := e.db.ghosts[sc.Ghost]
+		if !ok {
+			panic(sperr("sets: undeclared ghost %s", sc.Ghost))
+		}
+		elem := srt
+		if srt.IsArr() {
+			elem = srt.Elem()
+		}
+		idx := IntLit(0)
+		if sc.Idx != nil {
+			iv, _ := post.eval(sc.Idx)
+			idx = e.term(iv)
+		}
+		vv, _ := post.eval(sc.Val)
+		val := e.term(vv)
+		cur := Select(st.heap("G!"+sc.Ghost, ArrSort(elem)), idx)
+		if sc.When != nil {
+			val = Ite(post.evalBool(sc.When), val, cur)
+		}
+		e.setGhost(st, sc.Ghost, elem, idx, val)
+		// later reads in this context must see the update
+		post.heaps = st.heap
+	}
 }
